@@ -106,6 +106,16 @@ func normalise(t *parser.Thrift) {
 			cv(f.Default)
 		}
 	}
+	for _, s := range t.Services {
+		for _, fn := range s.Functions {
+			for _, a := range fn.Arguments {
+				cv(a.Default)
+			}
+			for _, a := range fn.Throws {
+				cv(a.Default)
+			}
+		}
+	}
 }
 
 // CppType is not named by the property's list of preserved parts and the
@@ -326,6 +336,7 @@ func restrict(p *idl.Program) {
 				for _, a := range fn.Args {
 					an(a.Annos)
 					typ(a.Type)
+					val(a.Default)
 				}
 				for _, a := range fn.Throws {
 					an(a.Annos)
